@@ -450,6 +450,10 @@ def run_o_along(inp):
     ang = float(np.asarray(mk2(pvec, v1).angle(tb)).reshape(-1)[0])
     # the angle does not depend on the lengths of the tangent vectors
     ang_scaled = float(np.asarray(mk2(pvec, 3.7 * v1).angle(mk2(pvec, 0.4 * np.array(tb.vector, dtype=float)))).reshape(-1)[0])
+    # (x, v) ~ (-x, -v): the angle must not depend on which representative of either tangent vector is stored
+    vb = np.array(tb.vector, dtype=float).copy()
+    ang_reps = [float(np.asarray(mk2(s1 * pvec, s1 * v1).angle(mk2(s2 * pvec, s2 * vb))).reshape(-1)[0]) for s1 in (1, -1) for s2 in (1, -1)]
+    ang_opp = float(np.asarray(mk2(pvec, v1).angle(mk2(-pvec, vb))).reshape(-1)[0])
     ang_self = float(np.asarray(mk2(pvec, v1).angle(mk2(pvec, 2.5 * v1))).reshape(-1)[0])
     ang_anti = float(np.asarray(mk2(pvec, v1).angle(mk2(pvec, -0.5 * v1))).reshape(-1)[0])
     c = _d(x1, x2)
@@ -458,7 +462,7 @@ def run_o_along(inp):
     dq = _d(p, Qp)
     tq = p.unit_tangent_towards(Qp)
     end = tq.point_along(dq)
-    return {"d1": d1, "rank3": float(sv[-1]), "ang": ang, "ang_self": ang_self, "ang_anti": ang_anti, "ang_scaled": ang_scaled, "c": c, "d2": _d(p, x2),
+    return {"d1": d1, "rank3": float(sv[-1]), "ang": ang, "ang_self": ang_self, "ang_anti": ang_anti, "ang_scaled": ang_scaled, "ang_reps": ang_reps, "ang_opp": ang_opp, "c": c, "d2": _d(p, x2),
             "end": np.array(end.coords("klein"), dtype=float).tolist(), "dq": dq,
             "unit": float(G.mink(np.array(tq.vector, dtype=float), np.array(tq.vector, dtype=float)))}
 
@@ -484,6 +488,9 @@ def judge_o_along(inp, obs, lr):
     rhs = math.cosh(t1) * math.cosh(t2) - math.sinh(t1) * math.sinh(t2) * math.cos(obs["ang"])
     if not abs(lhs - rhs) <= (1e-3 if f32 else 1e-6) * (1 + abs(rhs)):
         return {"expected": {"law of cosines rhs": rhs}, "observed": lhs, "tags": {"what": "law_of_cosines"}}
+    if "ang_reps" in obs and not (max(abs(a - obs["ang"]) for a in obs["ang_reps"]) <= 1e-7 and abs(obs["ang_opp"] - (math.pi - obs["ang"])) <= 1e-7):
+        return {"expected": {"angle independent of the representative (x,v) ~ (-x,-v); pi - angle for (x,v1),(-x,v2)": obs["ang"]},
+                "observed": [obs["ang_reps"], obs["ang_opp"]], "tags": {"what": "angle", "representatives": True}}
     if not abs(obs["ang_scaled"] - obs["ang"]) <= 1e-7:
         return {"expected": {"angle independent of the vectors' lengths": obs["ang"]}, "observed": obs["ang_scaled"], "tags": {"what": "angle", "unequal_lengths": True}}
     if not (abs(obs["ang_self"]) <= 1e-6 and abs(obs["ang_anti"] - math.pi) <= 1e-6):
@@ -649,9 +656,12 @@ def run_o_history(inp):
             a1 = _tv_answers(tv, tq, st.get("fo", True), spoil=True)
             a2 = _tv_answers(tv, tq, st.get("fo", True))
             a3 = _tv_answers(_tv_fresh(tv), tq, st.get("fo", True))
+            # the rows of origin_to grow like cosh d(o, p) and lose that many digits (twice: normalize rescales the stored
+            # vector in place by a positive factor, so two calls on one object differ by roundoff)
+            sc = 1 + float(np.abs(a3[0]).max()) ** 2
             log.append({"k": k, "op": op, "what": "answers equal those of a fresh object with the same data, and survive overwriting returned arrays",
-                        "ok": bool(np.abs(a1[0] - a3[0]).max() <= ftol and np.abs(a1[1] - a3[1]).max() <= ftol
-                                   and np.abs(a1[0] - a2[0]).max() <= 1e-12 and np.abs(a1[1] - a2[1]).max() <= 1e-12)})
+                        "ok": bool(np.abs(a1[0] - a3[0]).max() <= ftol * sc and np.abs(a1[1] - a3[1]).max() <= ftol * sc
+                                   and np.abs(a1[0] - a2[0]).max() <= 1e-12 * sc and np.abs(a1[1] - a2[1]).max() <= 1e-12 * sc)})
         if inp["obj"] == "point":
             # the same history on the basepoint alone: Point.origin_to after transformations
             pt = H.Point(np.array(tv.point, dtype=float).copy()) if k == 0 else pt
@@ -756,6 +766,129 @@ def judge_o_surface(inp, obs, lr):
     return None
 
 
+# ---- (i) arguments are not consumed: snapshot of every scalar / array argument, call-twice determinism ----------------
+ARG_PACKS = ["0d", "0d-view", "1d", "np.float64", "float", "int-or-float", "list"]
+ARG_CALLS = ["regular_polygon_radius", "polygon_interior_angle", "hyp_to_affine_dist", "regular_polygon_angle", "regular_polygon_radius_kw",
+             "point_along", "standard_rotation", "standard_loxodromic", "unit_tangent_towards", "origin_to_point", "int_tangent_data"]
+
+
+def _arg(v, pack):
+    if pack == "0d":
+        return np.array(float(v))
+    if pack == "0d-view":
+        return np.array([float(v), 9.0])[0:1].reshape(())
+    if pack == "1d":
+        return np.array([float(v), float(v)])
+    if pack == "np.float64":
+        return np.float64(v)
+    if pack == "list":
+        return [float(v), float(v)]
+    return float(v)
+
+
+def gen_o_args(rng, n):
+    for i in range(n):
+        call = ARG_CALLS[i % len(ARG_CALLS)]
+        k = rng.randint(3, 9)
+        amax = (k - 2) * math.pi / k
+        yield {"call": call, "pack": rng.choice(ARG_PACKS), "n": k, "a": rng.uniform(0.1 * amax, 0.9 * amax), "r": rng.uniform(0.2, 2.5),
+               "t": rng.uniform(-2.5, 2.5), "dim": rng.choice([2, 3]), "tv": rand_tv(rng, 3), "q": G.fball(rng, 3, 0.9)}
+
+
+def random_from(inp):
+    import random
+    return random.Random(repr(sorted((k, repr(v)) for k, v in inp.items() if k in ("n", "a", "r", "t"))))
+
+
+def _snap(x):
+    return np.array(x, dtype=float).copy() if isinstance(x, (np.ndarray, list)) else x
+
+
+def run_o_args(inp):
+    call, pack, k = inp["call"], inp["pack"], inp["n"]
+    vec_ok = call in ("regular_polygon_radius", "polygon_interior_angle", "hyp_to_affine_dist")
+    if pack in ("1d", "list") and not vec_ok:
+        pack = "0d"
+    if pack == "list" and call != "hyp_to_affine_dist":
+        pack = "1d"
+    dim = inp["dim"]
+    tvd = dict(inp["tv"], k=inp["tv"]["k"][:dim], v=inp["tv"]["v"][:dim + 1])
+
+    def do(x):
+        if call == "regular_polygon_radius":
+            return np.array(H.regular_polygon_radius(k, x), dtype=float)
+        if call == "polygon_interior_angle":
+            return np.array(H.polygon_interior_angle(k, x), dtype=float)
+        if call == "hyp_to_affine_dist":
+            return np.array(H.hyp_to_affine_dist(np.array(x) if isinstance(x, list) else x), dtype=float)
+        if call == "regular_polygon_angle":
+            return np.array(H.Polygon.regular_polygon(k, angle=x).get_vertices().proj_data, dtype=float)
+        if call == "regular_polygon_radius_kw":
+            return np.array(H.Polygon.regular_polygon(k, radius=x).get_vertices().proj_data, dtype=float)
+        if call == "point_along":
+            return np.array(mk_tv(tvd).normalized().point_along(x).proj_data, dtype=float)
+        if call == "standard_rotation":
+            return np.array(H.Isometry.standard_rotation(x, dimension=dim).proj_data, dtype=float)
+        if call == "standard_loxodromic":
+            return np.array(H.Isometry.standard_loxodromic(dim, x).proj_data, dtype=float)
+        raise ValueError(call)
+    if call == "int_tangent_data":
+        # (ii) objects whose own data is integral, in every packaging: Point.origin_to, TangentVector.point_along (normalised or not)
+        pt = G.int_timelike(random_from(inp), dim)
+        vec = [0] * (dim + 1)
+        vec[1 + (inp["n"] % dim)] = 1 + inp["n"] % 3
+        vec[0] = inp["n"] % 2
+        dp = ["int64", "int32", "list", "float64"][inp["n"] % 4]
+        arr = G.pack_data([pt, vec], dp)
+        tv = H.TangentVector(arr)
+        base = H.Point(np.array(pt, dtype=float))
+        w = np.array(vec, dtype=float) - np.array(pt, dtype=float) * (G.mink(np.array(vec, float), np.array(pt, float)) / G.mink(np.array(pt, float), np.array(pt, float)))
+        L = math.sqrt(G.mink(w, w))
+        t = inp["t"]
+        d_unit = _d(base, tv.normalized().point_along(t))
+        d_raw = _d(base, H.TangentVector(G.pack_data([pt, vec], dp)).point_along(t))     # not normalised: distance still |t| (origin_to normalises)
+        img = np.array((H.Point(G.pack_data(pt, dp)).origin_to() @ H.Point.get_origin(dim)).proj_data, dtype=float)
+        return {"arg_ok": True, "twice": 0.0, "ref": max(abs(d_unit - abs(t)), abs(d_raw - abs(t))) * 1e-3 if G.proj_equal(img, np.array(pt, float), 1e-9) else 1.0,
+                "pack": dp, "L": L}
+    if call in ("unit_tangent_towards", "origin_to_point"):
+        # array arguments that become object data: the caller's arrays must survive the queries
+        pk = np.array(inp["tv"]["k"][:dim])
+        qk = np.array(inp["q"][:dim])
+        pdat, qdat = np.array(H.Point(pk, model="klein").proj_data, dtype=float), np.array(H.Point(qk, model="klein").proj_data, dtype=float)
+        p0, q0 = pdat.copy(), qdat.copy()
+        P, Qp = H.Point(pdat), H.Point(qdat)
+        if call == "origin_to_point":
+            r1 = np.array(P.origin_to().proj_data, dtype=float)
+            r2 = np.array(P.origin_to().proj_data, dtype=float)
+        else:
+            r1 = np.array(P.unit_tangent_towards(Qp).vector, dtype=float).copy()
+            r2 = np.array(P.unit_tangent_towards(Qp).vector, dtype=float).copy()
+        # the stored representative may legitimately be rescaled (projective data); anything else is a consumed argument
+        return {"arg_ok": bool(G.proj_equal(pdat, p0, 1e-12) and G.proj_equal(qdat, q0, 1e-12)), "twice": float(np.abs(r1 - r2).max()), "ref": 0.0}
+    v = {"regular_polygon_radius": inp["a"], "regular_polygon_angle": inp["a"], "polygon_interior_angle": inp["r"], "regular_polygon_radius_kw": inp["r"],
+         "hyp_to_affine_dist": inp["t"], "point_along": inp["t"], "standard_rotation": inp["a"], "standard_loxodromic": math.exp(inp["t"])}[call]
+    x = _arg(v, pack)
+    before = _snap(x)
+    r1 = do(x)
+    after1 = _snap(x)
+    r2 = do(x)
+    ref = do(float(v))
+    same_arg = bool(np.array_equal(np.array(before, dtype=float), np.array(after1, dtype=float)) and np.array_equal(np.array(before, dtype=float), np.array(_snap(x), dtype=float)))
+    rr = np.broadcast_to(ref, r1.shape) if r1.shape != ref.shape and ref.ndim <= r1.ndim else ref
+    return {"arg_ok": same_arg, "twice": float(np.abs(r1 - r2).max()), "ref": float(np.abs(r1 - rr).max()) if r1.shape == np.shape(rr) else float("inf"), "pack": pack}
+
+
+def judge_o_args(inp, obs, lr):
+    tags = {"call": inp["call"], "pack": obs.get("pack", inp["pack"])}
+    if "exc" in obs:
+        return {"expected": "call succeeds for this packaging of the argument", "observed": obs, "tags": dict(tags, exc=obs["exc"])}
+    if not obs["arg_ok"]:
+        return {"expected": "the caller's argument is unchanged by the call", "observed": obs, "tags": dict(tags, what="argument modified")}
+    if not (obs["twice"] <= 1e-12 and obs["ref"] <= 1e-9):
+        return {"expected": "the same answer when called twice, equal to the answer for the plain float", "observed": obs, "tags": dict(tags, what="call twice")}
+    return None
+
+
 CLAUSES = [
     Clause("origin_corr", "corr", gen_origin, run_origin, judge_origin, lean=lean_origin, site="hyperbolic.Point.origin_to",
            budget={"quick": 120, "thorough": 3000},
@@ -782,6 +915,10 @@ CLAUSES = [
            budget={"quick": 200, "thorough": 8000}, what="|t| along a unit tangent (both signs), on the geodesic, law of cosines, towards q reaches q"),
     Clause("surface_polygon_oracle", "oracle", gen_o_surface, run_o_surface, judge_o_surface, site="hyperbolic.Polygon.regular_surface_polygon",
            budget={"quick": 8, "thorough": 8}, what="regular_surface_polygon(g), g = 2..5: 4g vertices at radius genus_g_surface_radius(g), interior angles pi/(2g) summing to 2 pi"),
+    Clause("argument_oracle", "oracle", gen_o_args, run_o_args, judge_o_args, site="hyperbolic.regular_polygon_radius",
+           budget={"quick": 120, "thorough": 3000},
+           what="every real argument (angle, radius, distance, parameter) as 0-d array, 0-d view, 1-d array, NumPy scalar, list: the argument is unchanged "
+                "by the call, calling twice gives the same answer, equal to the plain-float answer; array arguments that become object data survive queries"),
     Clause("history_oracle", "oracle", gen_o_history, run_o_history, judge_o_history, site="hyperbolic.TangentVector.origin_to",
            budget={"quick": 150, "thorough": 5000},
            what="histories of 6-10 steps on one tangent vector / point: queries (origin_to, point_along, isometry_to, angle with unequal lengths, normalized) "
